@@ -286,6 +286,10 @@ def diagnose(sim, comp, views):
         running_sets.add(tuple(sorted(i for i, st in views[n][2].items() if st == 'RUNNING')))
     if len(running_sets) > 1:
         return 'running-sets-differ'
+    # everybody agrees on a Master that is itself parked in CONCILIATION (conflicts left to the user): a Slave that
+    # went back to ELECTION cannot follow it (no DISTRIBUTION -> CONCILIATION edge), recorded finding
+    if views[idents[m]][0]['fsm_statename'] == 'CONCILIATION':
+        return 'slave-cannot-rejoin-master-in-CONCILIATION'
     return 'other'
 
 
